@@ -132,6 +132,7 @@ def run(ctx):
 
     # ---------------- R2 the counter is monotone
     ctx.rule("C18.R2", "every call between depth-carrying functions passes its own call_depth + k (k >= 0, constant); FunctionDef::call passes k >= 1 to the body; only drivers pass constants", floor=40)
+    ctx.rule("C18.R4", "depth is consumed by calls only: every edge between the evaluator's own functions passes call_depth unchanged and FunctionDef::call evaluates the body at call_depth + 1 exactly (the limit of 1000 then means 1000 nested calls)", floor=20)
     carriers = {}
     for name in cg.fns:
         i = depth_param_index(crates, name)
@@ -163,6 +164,14 @@ def run(ctx):
             if d[0] == "param":
                 need = 1 if (name == FCALL and c == EVAL) else 0
                 ctx.inst("C18.R2", key, d[1] >= need, "passes call_depth + %d (needs >= %d)" % (d[1], need), fn.loc(b))
+                # the converse clause: only Blots-level calls consume depth. Edges between the evaluator's own functions (sub-expressions,
+                # operators, do-blocks) are not calls and must pass the depth on unchanged; the body edge adds exactly one.
+                par = f.get("parent") or name
+                internal = lambda x: x.startswith(CORE + "expressions::")
+                if internal(par) and internal(c):
+                    ctx.inst("C18.R4", key, d[1] == 0, "passes call_depth + %d between evaluator functions (a sub-expression, operator or do-block is not a call: recursion a few hundred deep would hit the limit early)" % d[1], fn.loc(b))
+                elif name == FCALL and c == EVAL:
+                    ctx.inst("C18.R4", key, d[1] == 1, "the body of a called function is evaluated at call_depth + %d (one per call)" % d[1], fn.loc(b))
             elif d[0] == "const":
                 ctx.inst("C18.R2", key, not in_core_cycle, "passes the constant %d: %s" % (d[1], "driver entry" if not in_core_cycle else "resets the counter inside the evaluator"), fn.loc(b))
             else:
